@@ -384,8 +384,10 @@ class Mode(LogMixin):
         self._remove_mode_event_handlers()
         self._remove_mode_devices()
 
-        # handlers of the mode were still registered while it was stopping and may have added delays
+        # handlers of the mode were still registered while it was stopping and may have added delays or (like
+        # mode_start() of a mode which is stopped from a handler of its started event) switch handlers
         self.delay.clear()
+        self._remove_mode_switch_handlers()
 
         for callback in self.stop_callbacks:
             callback()
